@@ -23,6 +23,15 @@ def run(ctx, proof):
     if proof["ok"]:
         corr, cfail = common.check_case_files(ctx, data["files"], "run_program over eemsF (Model/EemsProg.v) vs Program.from_source+run",
                                               describe=lambda i, a: descr[i])
-    return {"corr": [corr], "corr_failures": cfail, "oracle_failures": data["oracle_failures"],
+    # the abstract side: the probe-library programs of C01 (file orders, programs built and edited through the API); the values
+    # every command ends up with must be those of the graph as it stands when it runs
+    oracle = list(data["oracle_failures"])
+    sdata, serr = common.run_driver_json(ctx, "sched_driver.py", ["dag", ctx.scale(250, 4000)], timeout=3000)
+    if sdata is None:
+        return {"errors": [serr], "evaluations": 0}
+    oracle += [f for f in sdata["oracle_failures"] if f["sig"].startswith("C02:")]
+    data["evaluations"] += sdata["evaluations"]
+    data["distribution"]["probe_programs"] = {k: sdata["distribution"].get(k) for k in ("programs", "built_in_code", "edited_models", "flaky_histories")}
+    return {"corr": [corr], "corr_failures": cfail, "oracle_failures": oracle,
             "evaluations": data["evaluations"], "distinct_nontrivial": data["distinct_nontrivial"],
             "rule": RULE, "samples": data["samples"], "distribution": data["distribution"]}
